@@ -12,7 +12,7 @@ import random
 from collections import Counter
 from harness import common, edits, export
 
-EXTRA_PROPS_FILES = ["Scfg/Props/C14Join.lean", "Scfg/Props/C14Ctl.lean", "Scfg/Props/C14Paths.lean"]
+EXTRA_PROPS_FILES = ["Scfg/Props/C14Join.lean", "Scfg/Props/C14Ctl.lean", "Scfg/Props/C14Paths.lean", "Scfg/Props/C14Reroute.lean"]
 LEVEL = "proof"
 
 
@@ -172,7 +172,7 @@ def run(ctx):
     }
     del cov["obligations"], cov["discharged"]
     from harness import steps as _steps, gen as _gen
-    cov["step_certificates"] = _steps.coverage("C14", ctx["tier"], [s for _, s in _gen.graph_inputs("quick", ctx["seed"])])
+    cov["step_certificates"], _ = _steps.coverage("C14", ctx["tier"], [s for _, s in _gen.graph_inputs("quick", ctx["seed"])])
     return {"level": LEVEL, "coverage": cov, "violations": violations, "broken": broken,
             "assumptions": ["the hand-written model Scfg/Model/Edit.lean corresponds to the code as far as the random histories exercise it",
                             "exporter faithful"]}
